@@ -87,6 +87,7 @@ type pathState struct {
 	retStmt *ast.ReturnStmt      // the return statement of the interpreted function that ended this path
 	aliasE  map[string]aliasExpr // boolean locals that name a condition: the condition itself (valid while alias[name] == text)
 	loopSel map[string]*selSet   // dispatch decisions taken inside a loop body (reported, never used to prune)
+	fieldE  map[string]ast.Expr  // "x.f" -> the boolean condition stored in that field by a composite literal / assignment
 }
 
 type aliasExpr struct {
@@ -228,6 +229,12 @@ func (s *pathState) clone() *pathState {
 			n.loopSel[k] = v
 		}
 	}
+	if len(s.fieldE) > 0 {
+		n.fieldE = map[string]ast.Expr{}
+		for k, v := range s.fieldE {
+			n.fieldE[k] = v
+		}
+	}
 	if len(s.aliasE) > 0 {
 		n.aliasE = map[string]aliasExpr{}
 		for k, v := range s.aliasE {
@@ -320,6 +327,12 @@ func (tr *tracer) evalBool(info *types.Info, e ast.Expr, st *pathState) []boolCo
 				return []boolCont{{st, false}}
 			}
 			return tr.atom(a, st, true)
+		}
+	case *ast.SelectorExpr:
+		if len(st.fieldE) > 0 {
+			if fe, ok := st.fieldE[st.resolve(normAtom(x))]; ok {
+				return tr.evalBool(info, fe, st)
+			}
 		}
 	case *ast.CallExpr:
 		// a predicate method whose body is one boolean return (e.g. meta.morePages()): evaluate its expression
@@ -699,6 +712,19 @@ func (tr *tracer) execStmt(fi *FuncInfo, s ast.Stmt, st *pathState) []*pathState
 		for _, s2 := range states {
 			for _, l := range x.Lhs {
 				s2.killSel(normAtom(l))
+				if len(s2.fieldE) > 0 {
+					key := s2.resolve(normAtom(l))
+					for k := range s2.fieldE {
+						if k == key || strings.HasPrefix(k, key+".") {
+							delete(s2.fieldE, k)
+						}
+					}
+				}
+			}
+			if len(x.Lhs) == len(x.Rhs) {
+				for i, l := range x.Lhs {
+					tr.recordFieldConds(info, l, x.Rhs[i], s2)
+				}
 			}
 			fromCallee := false
 			if len(x.Rhs) == 1 && len(s2.rets) == len(x.Lhs) {
@@ -1319,7 +1345,25 @@ func (tr *tracer) execExpr(fi *FuncInfo, e ast.Expr, states []*pathState) []*pat
 				for _, pf := range callee.Decl.Type.Params.List {
 					for _, nm := range pf.Names {
 						if k < len(c.Args) {
-							a := exprStr(c.Args[k])
+							// an embedded struct passed by address is the outer value as far as promoted fields go
+							argE := ast.Unparen(c.Args[k])
+							if u, isU := argE.(*ast.UnaryExpr); isU && u.Op == token.AND {
+								inner := ast.Unparen(u.X)
+								for {
+									sel, isSel := inner.(*ast.SelectorExpr)
+									if !isSel {
+										break
+									}
+									if fv := fieldOf(info, sel); fv == nil || !fv.Embedded() {
+										break
+									}
+									inner = ast.Unparen(sel.X)
+								}
+								if inner != ast.Unparen(u.X) {
+									argE = &ast.UnaryExpr{Op: token.AND, X: inner}
+								}
+							}
+							a := exprStr(argE)
 							a = strings.TrimPrefix(strings.TrimPrefix(a, "&"), "*")
 							// resolve through the caller's aliases
 							tmp := &pathState{alias: savedAlias}
@@ -1478,6 +1522,46 @@ func (tr *tracer) recordBufOps(fi *FuncInfo, as *ast.AssignStmt, st *pathState) 
 		ls := strings.ReplaceAll(exprStr(l), " ", "")
 		rhs := ast.Unparen(as.Rhs[i])
 		if tr.trackBuf != "" {
+			// a local that carries the buffer while it is being built (hdr := append(f.buf[:0], ...); f.buf = append(hdr, ...))
+			isBufName := func(n string) bool { return n == tr.trackBuf || st.alias["buf:"+n] == tr.trackBuf }
+			if lid, isId := ast.Unparen(l).(*ast.Ident); isId {
+				if c, ok := rhs.(*ast.CallExpr); ok && exprStr(c.Fun) == "append" && len(c.Args) >= 1 && !c.Ellipsis.IsValid() {
+					base := strings.ReplaceAll(exprStr(c.Args[0]), " ", "")
+					reset := false
+					if strings.HasSuffix(base, "[:0]") && isBufName(strings.TrimSuffix(base, "[:0]")) {
+						reset, base = true, strings.TrimSuffix(base, "[:0]")
+					}
+					if isBufName(base) {
+						if reset {
+							st.trace = append(st.trace, TraceItem{Prim: "reset", Pos: as.Pos()})
+						}
+						var items []ByteItem
+						for _, a := range c.Args[1:] {
+							items = append(items, parseByteItem(info, a))
+						}
+						st.trace = append(st.trace, TraceItem{Prim: "bytes", Bytes: items, Pos: as.Pos()})
+						st.alias["buf:"+lid.Name] = tr.trackBuf
+						continue
+					}
+				}
+				delete(st.alias, "buf:"+lid.Name)
+			}
+			if ls == tr.trackBuf {
+				if c, ok := rhs.(*ast.CallExpr); ok && exprStr(c.Fun) == "append" && len(c.Args) >= 1 && !c.Ellipsis.IsValid() {
+					base := strings.ReplaceAll(exprStr(c.Args[0]), " ", "")
+					if base != tr.trackBuf && isBufName(base) {
+						var items []ByteItem
+						for _, a := range c.Args[1:] {
+							items = append(items, parseByteItem(info, a))
+						}
+						st.trace = append(st.trace, TraceItem{Prim: "bytes", Bytes: items, Pos: as.Pos()})
+						continue
+					}
+				}
+				if id, isId := rhs.(*ast.Ident); isId && isBufName(id.Name) {
+					continue // f.buf = hdr: the bytes were recorded while hdr was built
+				}
+			}
 			if ls == tr.trackBuf {
 				if sl, ok := rhs.(*ast.SliceExpr); ok && strings.ReplaceAll(exprStr(sl.X), " ", "") == tr.trackBuf && sl.High != nil {
 					if k, ok := constInt(info, sl.High); ok && k == 0 {
@@ -1633,4 +1717,49 @@ func (s *pathState) decided(names map[string]bool) (in []string, restricted bool
 		}
 	}
 	return nil, false, false
+}
+
+// recordFieldConds: `x := T{flag: cond}` / `x.flag = cond` with a boolean cond that is not a constant: remember the
+// condition, so that a later test of x.flag is the test of cond (a small options struct passed to helpers).
+func (tr *tracer) recordFieldConds(info *types.Info, lhs, rhs ast.Expr, st *pathState) {
+	isBoolCond := func(e ast.Expr) bool {
+		t := info.TypeOf(e)
+		if t == nil {
+			return false
+		}
+		b, ok := t.Underlying().(*types.Basic)
+		if !ok || b.Kind() != types.Bool && b.Kind() != types.UntypedBool {
+			return false
+		}
+		if tv, has := info.Types[e]; has && tv.Value != nil {
+			return false
+		}
+		return true
+	}
+	set := func(key string, e ast.Expr) {
+		if st.fieldE == nil {
+			st.fieldE = map[string]ast.Expr{}
+		}
+		st.fieldE[key] = e
+	}
+	base := st.resolve(normAtom(lhs))
+	r := ast.Unparen(rhs)
+	if u, ok := r.(*ast.UnaryExpr); ok && u.Op == token.AND {
+		r = ast.Unparen(u.X)
+	}
+	if cl, ok := r.(*ast.CompositeLit); ok {
+		for _, el := range cl.Elts {
+			if kv, ok := el.(*ast.KeyValueExpr); ok {
+				if kid, ok := kv.Key.(*ast.Ident); ok && isBoolCond(kv.Value) {
+					set(base+"."+kid.Name, kv.Value)
+				}
+			}
+		}
+		return
+	}
+	if _, isSel := ast.Unparen(lhs).(*ast.SelectorExpr); isSel && isBoolCond(rhs) {
+		if _, isIdent := r.(*ast.Ident); !isIdent {
+			set(base, rhs)
+		}
+	}
 }
